@@ -123,9 +123,14 @@ func runQuery(a []string, asJson bool) string {
 	}
 	args = append(args, queryArgs(flags, sortTok)...)
 	args = append(args, f)
-	code, out, errText := runKlog(env, args...)
+	code, out, _ := runKlog(env, args...)
 	if code != 0 {
-		if strings.HasPrefix(errText, "Invocation error") {
+		// an argument error is a command line that fails whatever the file holds (told by running it on an empty
+		// file, not by the wording of the message)
+		writeFile(f, "")
+		ecode, _, _ := runKlog(env, args...)
+		writeFile(f, text)
+		if ecode != 0 {
 			return "argerr"
 		}
 		if _, _, errs := parser.NewSerialParser().Parse(text); errs != nil {
